@@ -328,7 +328,8 @@ pub fn many_texts(case: &Value) -> Vec<String> {
         }
     };
     let present: Vec<bool> = case["present"].as_array().cloned().unwrap_or_default().iter().map(|x| x == true).collect();
-    (0..2).map(|f| many_template(f, &with, &present)).collect()
+    let none = vec![false; present.len()];
+    (0..2).map(|f| many_template(f, &with, if f == 1 && case["twin"] == false { &none } else { &present })).collect()
 }
 
 impl Lints {
@@ -350,9 +351,12 @@ impl Lints {
         let present: Vec<bool> = case["present"].as_array().cloned().unwrap_or_default().iter().map(|x| x == true).collect();
         // (file, site index, row, code) of every lint the two files contain
         let mut sites: Vec<(usize, usize, usize, &str)> = Vec::new();
+        // (the twin file may be without lints: case "twin" = false)
+        let absent = vec![false; present.len()];
+        let present_in = |f: usize| -> &Vec<bool> { if f == 1 && case["twin"] == false { &absent } else { &present } };
         for f in 0..2 {
             for (i, (row, code)) in MANY_SITES.iter().enumerate() {
-                if present.get(i).copied().unwrap_or(false) {
+                if present_in(f).get(i).copied().unwrap_or(false) {
                     sites.push((f, i, *row, code));
                 }
             }
@@ -364,8 +368,8 @@ impl Lints {
         std::fs::create_dir_all(dir.join("s")).unwrap();
         let mut shown_texts = Vec::new();
         for f in 0..2 {
-            std::fs::write(dir.join("b").join(MANY_FILES[f]), many_template(f, &none, &present)).unwrap();
-            let t = many_template(f, &with, &present);
+            std::fs::write(dir.join("b").join(MANY_FILES[f]), many_template(f, &none, present_in(f))).unwrap();
+            let t = many_template(f, &with, present_in(f));
             std::fs::write(dir.join("s").join(MANY_FILES[f]), &t).unwrap();
             shown_texts.push(t);
         }
